@@ -3,11 +3,11 @@
    nat, positive, N, Z stay Coq datatypes. *)
 Require Extraction.
 From Coq Require Import ExtrOcamlBasic.
-From KV Require Import Lib.Bits Model.Xerial Model.CodecPool Spec.Xerial.
+From KV Require Import Lib.Bits Model.Xerial Model.CodecPool Spec.Xerial Spec.SnappyBlock.
 Extraction Language OCaml.
 Extraction "c16_model.ml"
   xw_stream xw_new xr_new xr_open xr_close xr_reads xr_write_to
-  ref_decode ref_encode ref_reads
+  ref_decode ref_encode ref_reads snappy_block_decode
   p_init p_step p_observe p_run disciplined
   kind_snappy_reader kind_snappy_writer kind_lz4_reader kind_lz4_writer
   kind_gzip_reader kind_gzip_writer kind_zstd_reader kind_zstd_writer
